@@ -88,6 +88,7 @@ def e2e_case(ctx, idx):
     from wsproto.events import CloseConnection, TextMessage
 
     rng = ctx.rng
+    early_disc = None
     carrier = "h11" if idx % 3 != 2 else "h2"
     decision = rng.choice(DECISIONS)
     closing = rng.choice(["client-code", "client-nocode", "app-close", "app-close-code", "eof", "client-then-eof", "simultaneous"])
@@ -153,6 +154,10 @@ def e2e_case(ctx, idx):
             closes = [e for e in s.events if e[0] == "close"]
             if closes:
                 s.send_event(CloseConnection(code=closes[0][1]))  # echo the server's close
+                s.rig.run()
+                # the closing handshake is complete: the application is told now, not when the client finally drops TCP
+                a0 = s.app()
+                early_disc = None if a0 is None else [m for m in a0["received"] if m["type"] == "websocket.disconnect"]
             s.eof()
     else:
         if rng.random() < 0.5:
@@ -216,6 +221,9 @@ def e2e_case(ctx, idx):
                      "app-close-code": 1000, "eof": 1006}[closing]
         if len(disconnects) != 1 or disconnects[0]["code"] != want_code:
             bad(f"disconnects {disconnects}, expected one with code {want_code}", "e2e:disconnect-code:" + closing)
+        if closing in ("app-close", "app-close-code") and early_disc is not None and len(early_disc) != 1:
+            bad(f"the client answered the application's close frame, yet the application had been sent {len(early_disc)} disconnects before the "
+                f"transport went away", "e2e:disconnect-at-handshake-completion")
         if closing == "app-close-code" and ("close", app_close_code) not in [e[:2] for e in s.events]:
             bad(f"client did not see the application's close code: {s.events}", "e2e:app-close-code")
         if closing in ("client-code",) and ("close", client_code) not in [e[:2] for e in s.events]:
